@@ -1319,3 +1319,7 @@ for _op in ('lt', 'le', 'gt', 'ge'):
             return {'lt': x < y, 'le': x <= y, 'gt': x > y, 'ge': x >= y}[op]
         return f
     DEF_MODELS['std::cmp::PartialOrd::' + _op] = _mk_ord(_op)
+
+MODELS['std::slice::<impl [T]>::join'] = _join
+MODELS['std::slice::<impl [T]>::concat'] = _concat
+MODELS['core::slice::<impl [T]>::join'] = _join
